@@ -25,7 +25,7 @@ Definition mstate_eqb (a b : mstate) : bool :=
 
 Inductive cb := OnSleep | OnWake | OnPoll | OnPollEnd.
 
-Inductive res := ROk | RAlreadySleeping | RNotSleeping | RSkipped.
+Inductive res := ROk | RAlreadySleeping | RNotSleeping | RSkipped | RFailed.
 
 Inductive pc :=
 | SleepInit                (* Sleep() called, lock not yet taken *)
@@ -54,6 +54,8 @@ Inductive step :=
 | NewWake             (* some goroutine calls Wake() *)
 | Fire                (* the armed poll timer fires *)
 | Run (tid : nat)     (* thread [tid] performs its next atomic step *)
+| FailCb (tid : nat)  (* the OnSleep / OnWake callback thread [tid] sits in returns an error: Sleep() / Wake()
+                         return it without storing a state (Wake has already stopped the poll timer) *)
 | CallPoll            (* some goroutine calls the public Poll() (the timer's goroutine that was already
                          running when the timer was stopped, or anyone else) *)
 | Restart (graceful start : bool).
@@ -134,6 +136,13 @@ Section WithGen.
             else None
         | Some (Done _) => None
         end
+    | FailCb tid =>
+        match nth_error (s_threads s) tid with
+        | Some SleepInCb | Some WakeInCb =>
+            Some (mksys (s_state s) (s_persist s) (s_timer s) (s_gen s) None
+                        (set_nth tid (Done RFailed) (s_threads s)) (s_log s) (s_writes s))
+        | _ => None
+        end
     | CallPoll =>
         Some (mksys (s_state s) (s_persist s) (s_timer s) (s_gen s) (s_lock s) (s_threads s ++ [PollWaitLock]) (s_log s) (s_writes s))
     | Restart graceful start =>
@@ -177,6 +186,7 @@ Inductive action :=
 | ASleep                (* start a goroutine calling Sleep(); the lock is free *)
 | AWake
 | AFinish (j : nat)     (* let the callback of the j-th requester (in start order) return *)
+| AFinishFail (j : nat) (* ... return an error *)
 | AFire                 (* advance virtual time by the poll interval *)
 | AEnter (k : nat)      (* let the k-th poll that passed its first critical section enter OnPoll *)
 | APollEnd (k : nat)    (* let the k-th entered OnPoll callback return (PollDuration elapses) *)
@@ -246,6 +256,11 @@ Definition act (gc : bool) (r : rstate) (a : action) : option rstate :=
           | _ => None
           end
       | None => None end
+  | AFinishFail j =>
+      match nth_error (r_req r) j with
+      | Some tid =>
+          match exec gc s (FailCb tid) with Some s1 => Some (settled gc s1 r (r_req r)) | None => None end
+      | None => None end
   | AFire =>
       match exec gc s Fire with
       | Some s1 => Some (settled gc s1 r (r_req r))
@@ -283,7 +298,7 @@ Definition cb_code (c : cb) : N := match c with OnSleep => 0 | OnWake => 1 | OnP
 Definition mstate_code (m : mstate) : N := match m with MAwake => 0 | MSleeping => 1 | MPolling => 2 end%N.
 Definition res_code (p : pc) : N :=
   match p with
-  | Done ROk => 1 | Done RAlreadySleeping => 2 | Done RNotSleeping => 3 | Done RSkipped => 4
+  | Done ROk => 1 | Done RAlreadySleeping => 2 | Done RNotSleeping => 3 | Done RSkipped => 4 | Done RFailed => 5
   | _ => 0     (* still running *)
   end%N.
 
